@@ -489,7 +489,7 @@ impl<D: Distance> Writer<D> {
         let item_indices = self.item_indices(wtxn, options)?;
         let n_items = item_indices.len();
         // updated items can be an update, an addition or a removed item
-        let updated_items = self.reset_and_retrieve_updated_items(wtxn, options)?;
+        let updated_items = self.retrieve_updated_items(wtxn, options)?;
 
         if self.fit_in_descendant(options, item_indices.len()) {
             return self.clear_db_and_create_a_single_leaf(wtxn, options, item_indices);
@@ -564,6 +564,7 @@ impl<D: Distance> Writer<D> {
             &Key::metadata(self.index),
             &metadata,
         )?;
+        self.reset_updated_items(wtxn)?;
 
         Ok(())
     }
@@ -726,29 +727,33 @@ impl<D: Distance> Writer<D> {
         Ok(large_descendants)
     }
 
-    fn reset_and_retrieve_updated_items(
+    fn retrieve_updated_items(
         &self,
         wtxn: &mut RwTxn,
         options: &BuildOption,
     ) -> Result<RoaringBitmap, Error> {
-        tracing::debug!("reset and retrieve the updated items...");
+        tracing::debug!("retrieve the updated items...");
         (options.progress)(WriterProgress { main: MainStep::RetrieveTheUpdatedItems, sub: None });
         let mut updated_items = RoaringBitmap::new();
         let mut updated_iter = self
             .database
             .remap_types::<PrefixCodec, DecodeIgnore>()
-            .prefix_iter_mut(wtxn, &Prefix::updated(self.index))?
+            .prefix_iter(wtxn, &Prefix::updated(self.index))?
             .remap_key_type::<KeyCodec>();
         while let Some((key, _)) = updated_iter.next().transpose()? {
             options.cancelled()?;
             let inserted = updated_items.push(key.node.item);
             debug_assert!(inserted, "The keys should be sorted by LMDB");
-            // Safe because we don't hold any reference to the database currently
-            unsafe {
-                updated_iter.del_current()?;
-            }
         }
         Ok(updated_items)
+    }
+
+    /// The updated items must only be forgotten once the build succeeded: if it fails or is
+    /// cancelled and the transaction is committed anyway, the index still asks for a build.
+    fn reset_updated_items(&self, wtxn: &mut RwTxn) -> Result<(), Error> {
+        let range = Key::updated(self.index, 0)..=Key::updated(self.index, ItemId::MAX);
+        self.database.remap_data_type::<Bytes>().delete_range(wtxn, &range)?;
+        Ok(())
     }
 
     fn clear_db_and_create_a_single_leaf(
@@ -800,6 +805,7 @@ impl<D: Distance> Writer<D> {
             &Key::version(self.index),
             &version,
         )?;
+        self.reset_updated_items(wtxn)?;
         Ok(())
     }
 
